@@ -33,10 +33,11 @@ type c16case struct {
 	rate    string        // "" or a --rate value (makes the sending phase last)
 	per     time.Duration
 	timeout string // application scans: --timeout value, to tell it apart from the exit delay
+	badLine bool   // targets come from a file whose second line is a bad entry: a non-fatal error is logged before the scan is done
 }
 
 func (k c16case) String() string {
-	return fmt.Sprintf("%s probes=%d exit-delay=%q(%v) rate=%q reply-latency=%v timeout=%q", k.cmd.name, k.n, k.delay, k.dval, k.rate, k.latency, k.timeout)
+	return fmt.Sprintf("%s probes=%d exit-delay=%q(%v) rate=%q reply-latency=%v timeout=%q bad-line=%v", k.cmd.name, k.n, k.delay, k.dval, k.rate, k.latency, k.timeout, k.badLine)
 }
 
 type c16obs struct {
@@ -68,7 +69,20 @@ func c16build(k c16case) (*vE2ESpec, *c16obs) {
 		s.exclude = []string{"10.0.1.1"}
 		ob.chunks = [][2]int{{0, 0}}
 	}
+	if k.badLine {
+		// one valid target and one bad entry, from a file
+		s.subnet, s.ports = "", ""
+		if k.cmd.ports {
+			s.mode, s.entries = "pairs-file", []string{"10.0.1.1:80"}
+		} else {
+			s.mode, s.entries = "addr-file", []string{"10.0.1.1"}
+		}
+		ob.chunks = [][2]int{{0, 1}}
+	}
 	sc := c01build(s)
+	if k.badLine {
+		sc.Files["targets.jsonl"] += `{"ip":"10.0.1.300","port":80}` + "\n"
+	}
 	if k.delay != "" {
 		sc.Args = append(sc.Args, "--exit-delay", k.delay)
 	}
@@ -227,8 +241,8 @@ func verifC16(c *drv.Ctx) {
 	}
 	delays := []dl{{"", c16default}, {"0s", 0}, {"1ms", time.Millisecond}, {"300ms", 300 * time.Millisecond}, {"5s", 5 * time.Second}, {"77ms", 77 * time.Millisecond}}
 	c.R.Rule = "every scan command (12) x --exit-delay {not given (300 ms), 0s, 1ms, 300ms, 5s, 77ms} x probes {0 (everything excluded), 1, 3|4} x sending phase {instant, rate-limited so that it outlasts the delay} x reply latency after the last probe {0, delay/2, delay-1ns, delay+1ns (not required), none}; " +
-		"port scans additionally with 201 port ranges (2 chunks, each with its own window); application scans with --timeout different from the delay. One run of the real command per case on the virtual clock; the environment thread waits for the last probe of each chunk on the wire log and injects the reply after the latency. " +
-		"Oracle: the next chunk starts / the command returns exactly at last probe + delay (never earlier, and not later); a reply within the window yields its record; stdout is complete lines. Then every schedule with at most 1 deviation of two small cases under the same oracle. non-trivial = case with at least one probe"
+		"port scans additionally with 201 port ranges (2 chunks, each with its own window); application scans with --timeout different from the delay; file-driven scans whose file also holds a bad entry (an error is logged while the scan runs). One run of the real command per case on the virtual clock; the environment thread waits for the last probe of each chunk on the wire log and injects the reply after the latency. " +
+		"Oracle: the next chunk starts / the command returns exactly at last probe + delay (never earlier, and not later); a reply within the window yields its record; stdout is complete lines. Then every schedule with at most 1 deviation of four small cases (two of them one-probe scans) under the same oracle. non-trivial = case with at least one probe"
 	idx := 0
 	runCase := func(k c16case) {
 		idx++
@@ -295,6 +309,12 @@ func verifC16(c *drv.Ctx) {
 					}
 				}
 			}
+			if cmd.file && cmd.kind != "app" && d.val > 0 {
+				// a bad entry in the target file is reported while the scan runs: the exit delay still applies
+				for _, lat := range []time.Duration{d.val / 2, d.val - 1} {
+					runCase(c16case{cmd: cmd, delay: d.flag, dval: d.val, latency: lat, n: 1, badLine: true})
+				}
+			}
 			if cmd.ports && cmd.kind != "app" && (c.Thorough() || cmd.name == "tcp-syn" || cmd.name == "udp" || di == 0) {
 				for _, lat := range lats {
 					runCase(c16case{cmd: cmd, delay: d.flag, dval: d.val, latency: lat, n: 201})
@@ -321,6 +341,9 @@ func verifC16(c *drv.Ctx) {
 	exps := []exp{
 		{c16case{cmd: cmdSyn, delay: "77ms", dval: 77 * time.Millisecond, latency: 77*time.Millisecond - 1, n: 3, rate: "1/s", per: time.Second}, 1},
 		{c16case{cmd: cmdSocks, delay: "1ms", dval: time.Millisecond, latency: -1, n: 3, timeout: "7s"}, 1},
+		// a one-probe scan: the sender may be done before the rest of the engine has started
+		{c16case{cmd: cmdSyn, delay: "77ms", dval: 77 * time.Millisecond, latency: 38 * time.Millisecond, n: 1}, 1},
+		{c16case{cmd: cmdARP, delay: "1ms", dval: time.Millisecond, latency: 0, n: 1}, 1},
 	}
 	if c.Thorough() {
 		exps = append(exps, exp{c16case{cmd: cmdARP, delay: "", dval: c16default, latency: c16default / 2, n: 3}, 1},
